@@ -19,7 +19,10 @@
      8 expected rtype  9 unknown control  10 different class
      11 unexpected end of entry  12 short buffer  13 trailing tokens
      14 decimal number overflow  15 expected decimal number
-     17 expected IPv4 address    99 record type / syntax outside the model *)
+     17 expected IPv4 address  18 expected hex digits  19 uneven number of hex digits
+     20 expected SshfpAlgorithm  21 expected SshfpType  22 expected TlsaCertificateUsage
+     23 expected TlsaSelector  24 expected TlsaMatchingType
+     99 record type / syntax outside the model *)
 From Coq Require Import NArith List Bool Arith.
 From DV Require Import Base.Outcome Base.Bytes C07.Gen.
 Import ListNotations.
@@ -607,6 +610,83 @@ Definition scan_uint (maxv : N) (checked : bool) (s : sbuf) : outcome (N * sbuf)
   do s <- next_item (snd rs);
   Ok (fst rs, s).
 
+(* convert_entry / convert_one_token / append_data with utils::base16::SymbolConverter *)
+Record hexst := mkH { h_pending : bool; h_buf : N }.
+
+(* char::to_digit(16) *)
+Definition hex_digit (c : N) : option N :=
+  if (48 <=? c) && (c <=? 57) then Some (c - 48)
+  else if (65 <=? c) && (c <=? 70) then Some (c - 55)
+  else if (97 <=? c) && (c <=? 102) then Some (c - 87)
+  else None.
+
+Definition hex_process (h : hexst) (sym : symbol) : outcome (hexst * list N) :=
+  match into_char sym with
+  | None => Err 18
+  | Some c =>
+    match hex_digit c with
+    | None => Err 18
+    | Some d =>
+      if h_pending h then Ok (mkH false (N.lor (h_buf h) d), [N.lor (h_buf h) d])
+      else Ok (mkH true ((d * 16) mod 256), [])
+    end
+  end.
+
+Definition hex_tail (h : hexst) : outcome unit := if h_pending h then Err 19 else Ok tt.
+
+(* append_data(data, write, builder) *)
+Definition append_data (s : sbuf) (data : list N) (w : nat) (b : option (list N))
+  : outcome (sbuf * nat * option (list N)) :=
+  match b with
+  | Some bl => Ok (s, w, Some (bl ++ data))
+  | None =>
+    let nw := (w + length data)%nat in
+    if Nat.ltb (start s) nw then
+      if Nat.leb w (length (buf s)) then Ok (s, w, Some (firstn w (buf s) ++ data)) else Panic 10
+    else do s' <- store_list s w data; Ok (s', nw, None)
+  end.
+
+Fixpoint convert_token_loop (fuel : nat) (h : hexst) (s : sbuf) (w : nat) (b : option (list N))
+  : outcome (hexst * sbuf * nat * option (list N)) :=
+  match fuel with
+  | O => OutOfFuel
+  | S f =>
+    do r <- next_symbol s;
+    match r with
+    | (None, s') => Ok (h, s', w, b)
+    | (Some sym, s') =>
+      do hd <- hex_process h sym;
+      match snd hd with
+      | [] => convert_token_loop f (fst hd) s' w b
+      | data => do a <- append_data s' data w b;
+                let '(s'', w', b') := a in convert_token_loop f (fst hd) s'' w' b'
+      end
+    end
+  end.
+
+Fixpoint convert_entry_loop (fuel : nat) (h : hexst) (s : sbuf) (w : nat) (b : option (list N))
+  : outcome (hexst * sbuf * nat * option (list N)) :=
+  match fuel with
+  | O => OutOfFuel
+  | S f =>
+    if is_line_feed s then Ok (h, s, w, b)
+    else
+      do _ <- require_token s;
+      do r <- convert_token_loop (fuel_of s) h s w b;
+      let '(h', s', w', b') := r in
+      do s'' <- next_item s';
+      convert_entry_loop f h' s'' w' b'
+  end.
+
+Definition convert_entry_hex (s : sbuf) : outcome (list N * sbuf) :=
+  do r <- convert_entry_loop (fuel_of s) (mkH false 0) s 0 None;
+  let '(h, s', w, b) := r in
+  do _ <- hex_tail h;
+  match b with
+  | Some bl => Ok (bl, s')
+  | None => split_to s' w
+  end.
+
 (* ------------------------------------------------------------- FromStr impls *)
 
 (* <u32 as FromStr>::from_str: optional '+', at least one digit, no overflow *)
@@ -750,11 +830,16 @@ Definition scan_ctr (s : sbuf) : outcome (option N * option N * N * sbuf) :=
 
 (* record data: the presentation schema of the modelled types as a sequence of
    Scanner calls, result = wire format of the record data *)
-Inductive field := FName | FU16 | FU32 | FTtl | FCharstr | FCharstrEntry | FIpv4.
+Inductive field := FName | FU16 | FU32 | FTtl | FCharstr | FCharstrEntry | FIpv4
+  | FU8Str (err : N) | FHexEntry.
 
 Definition schema (rtype : N) : option (list field) :=
   if rtype =? 1 then Some [FIpv4]
-  else if (rtype =? 2) || (rtype =? 5) || (rtype =? 12) then Some [FName]
+  else if (rtype =? 2) || (rtype =? 5) || (rtype =? 12) || (rtype =? 3) || (rtype =? 4) || (rtype =? 7)
+          || (rtype =? 8) || (rtype =? 9) || (rtype =? 39) then Some [FName]
+  else if (rtype =? 14) || (rtype =? 17) then Some [FName; FName]
+  else if rtype =? 44 then Some [FU8Str 20; FU8Str 21; FHexEntry]
+  else if rtype =? 52 then Some [FU8Str 22; FU8Str 23; FU8Str 24; FHexEntry]
   else if rtype =? 6 then Some [FName; FName; FU32; FTtl; FTtl; FTtl; FTtl]
   else if rtype =? 13 then Some [FCharstr; FCharstr]
   else if rtype =? 15 then Some [FU16; FName]
@@ -777,6 +862,10 @@ Definition scan_field (origin : option (list N)) (f : field) (s : sbuf) : outcom
   | FIpv4 =>
     do r <- scan_octets s;
     match parse_ipv4 (fst r) with Some a => Ok (a, snd r) | None => Err 17 end
+  | FU8Str e =>
+    do r <- scan_ascii_str (fun str => match parse_uint 255 str with Some v => Ok v | None => Err e end) s;
+    Ok ([fst r], snd r)
+  | FHexEntry => convert_entry_hex s
   end.
 
 Fixpoint scan_fields (origin : option (list N)) (fs : list field) (s : sbuf) (acc : list N)
